@@ -65,9 +65,66 @@ def expected(d, cfg, kf5=False):
     return "OrAndAndOnSameLevel" if mix(d) else None
 
 
+CORPUS_SCHEMA = {
+    "title": {"kind": "text", "children": {}, "sub": {"raw": "keyword"}},
+    "tag": {"kind": "keyword", "children": {}, "sub": {}},
+    "o": {"kind": "object", "children": {"k": {"kind": "text", "children": {}, "sub": {}}}, "sub": {}},
+    "author": {"kind": "nested", "sub": {}, "children": {
+        "name": {"kind": "text", "children": {}, "sub": {}},
+        "age": {"kind": "keyword", "children": {}, "sub": {}},
+        "book": {"kind": "nested", "sub": {}, "children": {
+            "title": {"kind": "text", "children": {}, "sub": {}},
+            "isbn": {"kind": "keyword", "children": {}, "sub": {}},
+            "format": {"kind": "nested", "sub": {}, "children": {
+                "type": {"kind": "text", "children": {}, "sub": {}}}}}}}},
+}
+
+
+def corpus_queries():
+    """systematic shapes over a fixed schema with three nesting levels: pairs of fields of a container joined
+    by every operator, negated, inside the container's group or dotted at the root, and mixes of both spellings"""
+    conts = {"author": ["name", "age", "book.title", "book.isbn", "book.format.type"],
+             "author.book": ["title", "isbn", "format.type"],
+             "author.book.format": ["type"]}
+    qs = []
+    for c, fields in conts.items():
+        for i, f1 in enumerate(fields):
+            for f2 in fields[i:]:
+                for op in (" AND ", " OR ", " "):
+                    qs.append("%s:(%s:x%s%s:y)" % (c, f1, op, f2))
+                    qs.append("%s.%s:x%s%s.%s:y" % (c, f1, op, c, f2))
+                    qs.append("%s:(%s:x)%s%s.%s:y" % (c, f1, op, c, f2))
+                    qs.append("%s:(%s:x%sNOT %s:y)" % (c, f1, op, f2))
+                qs.append("%s:(NOT %s:x)" % (c, f1))
+                qs.append("%s:(-%s:x %s:y)" % (c, f1, f2))
+                qs.append("NOT %s.%s:x" % (c, f1))
+    qs += ["author:x", "author.book:x", "o:x", "o.k:x", "o.zz:x", "title.raw:x", "title:(x OR raw:y)",
+           "author:(name:x AND book:(title:y AND format:(type:z)))", "author:(book:(format.type:z))",
+           "tag:x AND (title:y OR author.name:z)", "x AND y OR z", "x (y AND z)", "x AND (y OR z)", "a b AND c"]
+    return qs
+
+
 def cases(ctx, n, multi_match=True, **tgkw):
     rng = ctx.rng
     out = []
+    # corpus first: fixed schema, systematic query shapes, a few configurations
+    from .. import parsing
+    qs = corpus_queries()
+    rng.shuffle(qs)
+    for q in qs[: max(60, n // 4)]:
+        r, t = parsing.impl_parse(q)
+        if t is None:
+            continue
+        cfg = {"default_operator": rng.choice(["should", "must"]), "nested_fields": es.nested_spec(CORPUS_SCHEMA),
+               "not_analyzed_fields": es.not_analyzed(CORPUS_SCHEMA)}
+        if rng.random() < 0.5:
+            cfg["object_fields"] = es.object_fields(CORPUS_SCHEMA)
+        if rng.random() < 0.5:
+            cfg["sub_fields"] = es.sub_fields(CORPUS_SCHEMA)
+        d = r["ok"]
+        for _, node in common.tree_nodes(d):
+            node.update(h="", t="", p=None, s=None)
+        out.append((CORPUS_SCHEMA, cfg, d))
     schema = None
     for i in range(n):
         if schema is None or rng.random() < 0.25:
